@@ -149,12 +149,12 @@ func (r *runner) contentGroups(thorough bool) {
 		product(3, all, func(ks []int) { r.stream(d, false, buildContentStream(ks), 2) })
 	}
 
-	// all 256 byte values at eight content positions of the stream  S  M(1 continuation)  S
-	maxCuts := 1
+	// all 256 byte values at eight content positions of the stream  S  M(1 continuation)  S  (thorough: 2 cuts at the four
+	// line-end positions, where a normalisation is likeliest)
+	ctx.Group("scaled/content/byte-sweep/cuts<=1")
 	if thorough {
-		maxCuts = 2
+		ctx.Group("scaled/content/byte-sweep/cuts<=1(line-ends:2)")
 	}
-	ctx.Group(fmt.Sprintf("scaled/content/byte-sweep/cuts<=%d", maxCuts))
 	a, mh, mc, b := head(0, 40), head(1, 40), " c1-1", head(2, 41)
 	for pos := 0; pos < 8; pos++ {
 		for v := 0; v < 256; v++ {
@@ -180,6 +180,10 @@ func (r *runner) contentGroups(thorough bool) {
 				text = a + "\n" + mh + "\n" + mc + "\n" + b + x + "\n"
 			case 7: // inside the body of a head line
 				text = a[:20] + x + a[21:] + "\n" + mh + "\n" + mc + "\n" + b + "\n"
+			}
+			maxCuts := 1
+			if thorough && (pos <= 2 || pos == 6) {
+				maxCuts = 2
 			}
 			r.stream(d, false, newStream(fmt.Sprintf("cbyte/pos%d/%02x", pos, v), text), maxCuts)
 		}
